@@ -37,7 +37,7 @@ Inductive arg :=
 | AMapC (k : Z) (v : value)          (* MappingRuleExpression(KeywordConstant k, Constant v):  k => v *)
 | AMapE (k : Z) (id : Z) (v : value). (* MappingRuleExpression(KeywordConstant k, <expr id>) *)
 
-Inductive hidden := HEngine | HContext.
+Inductive hidden := HEngine | HContext | HOther.   (* HOther: Delegate, Super, Receiver, YaqlInterface, ... *)
 Inductive kind :=
 | KHidden (h : hidden)               (* yaqltypes.Engine() / Context(): injected, never bound from the call *)
 | KLambda                            (* yaqltypes.Lambda(): lazy, accepts anything *)
@@ -45,7 +45,13 @@ Inductive kind :=
 | KTyped (t : tag) (nullable : bool)  (* PythonType(class t, nullable) *)
 | KAnyOf (ts : list tag) (nullable : bool)  (* yaqltypes.AnyOf(classes..., nullable): related to no type *)
 | KConstant (nullable : bool)        (* yaqltypes.Constant(nullable): accepts constant expressions only *)
-| KMapRule.                          (* yaqltypes.MappingRule(): lazy, accepts `a => b` expressions only *)
+| KMapRule                           (* yaqltypes.MappingRule(): lazy, accepts `a => b` expressions only *)
+(* any other smart-type, described by the answers of its live check() to representative arguments
+   (Gen/Registry.v): value classes accepted as evaluated values / as constant expressions, None as a
+   value / as a constant, the NO_VALUE marker, a non-constant expression, a mapping expression; [st] is
+   the class tag PythonType.is_specialization_of compares (None: never a specialization of anything) *)
+| KProbed (lazy : bool) (acc_raw acc_const : list tag) (null_raw null_const : bool)
+          (marker_ok defer acc_map : bool) (st : option tag).
 Inductive star := SNone | SArgs | SKwargs.   (* dictionary key: the name / '*' / '**' *)
 
 Record param := {
@@ -107,7 +113,7 @@ Definition arg_eqb (a b : arg) : bool :=
   | AMapE k i x, AMapE l j y => Z.eqb k l && Z.eqb i j && value_eqb x y
   | _, _ => false end.
 Definition hidden_eqb (a b : hidden) : bool :=
-  match a, b with HEngine, HEngine => true | HContext, HContext => true | _, _ => false end.
+  match a, b with HEngine, HEngine => true | HContext, HContext => true | HOther, HOther => true | _, _ => false end.
 Definition bval_eqb (a b : bval) : bool :=
   match a, b with
   | BVal x, BVal y => value_eqb x y
@@ -149,7 +155,8 @@ Fixpoint all_some {A} (l : list (option A)) : option (list A) :=
   end.
 
 Definition is_hidden (k : kind) : bool := match k with KHidden _ => true | _ => false end.
-Definition is_lazy (k : kind) : bool := match k with KLambda | KExpr | KMapRule => true | _ => false end.
+Definition is_lazy (k : kind) : bool :=
+  match k with KLambda | KExpr | KMapRule => true | KProbed lz _ _ _ _ _ _ _ _ => lz | _ => false end.
 Definition arg_name (p : param) : Z := match palias p with Some a => a | None => pname p end.
 Definition is_sargs (p : param) : bool := match pstar p with SArgs => true | _ => false end.
 Definition is_skwargs (p : param) : bool := match pstar p with SKwargs => true | _ => false end.
@@ -200,6 +207,18 @@ Definition check (k : kind) (a : arg) : bool :=
       end
   | KConstant n => match a with AConst _ => true | ARaw VNull => n | _ => false end
   | KMapRule => match a with AMapC _ _ | AMapE _ _ _ => true | _ => false end
+  | KProbed _ accr accc nullr nullc mk defer accm _ =>
+      match a with
+      | ARaw VNull => nullr
+      | ARaw (VObj c) => existsb (Nat.eqb c) accr
+      | ARaw VMarker | ANoValue => mk
+      | ARaw (VOther _) => false
+      | AConst VNull => nullc
+      | AConst (VObj c) => existsb (Nat.eqb c) accc
+      | AConst _ => false
+      | AExpr _ _ => defer
+      | AMapC _ _ | AMapE _ _ _ => accm
+      end
   end.
 
 (* value_type.convert(...) for a value that passed check *)
@@ -216,6 +235,9 @@ Definition convert (k : kind) (a : arg) : bval :=
       end
   | KConstant _ => match a with AConst v => BVal v | _ => BVal VNull end
   | KMapRule => BVal (VOther (-1))       (* a utils.MappingRule object with lazily evaluated sides *)
+  | KProbed lz _ _ _ _ _ _ _ _ =>        (* what convert() makes of the value is not part of the model *)
+      if lz then BExprObj a
+      else match a with AConst v | ARaw v => BVal v | ANoValue => BVal VMarker | _ => BExprObj a end
   end.
 
 Definition checked (p : param) (a : arg) : option bval :=
@@ -455,8 +477,10 @@ Fixpoint eval_kw (lz : list bool) (kw : kwargs) : kwargs * list Z :=
   end.
 
 (* ---- runner._is_specialization_of ----------------------------------------- *)
+Definition spec_tag (k : kind) : option tag :=
+  match k with KTyped t _ => Some t | KProbed _ _ _ _ _ _ _ _ st => st | _ => None end.
 Definition type_spec (k1 k2 : kind) : bool :=
-  match k1, k2 with KTyped a _, KTyped b _ => sub a b | _, _ => false end.
+  match spec_tag k1, spec_tag k2 with Some a, Some b => sub a b | _, _ => false end.
 
 Definition spec_pairs (m1 m2 : mapping) : list (kind * kind) :=
   map (fun pq => (pkind (fst pq), pkind (snd pq))) (combine (fst m1) (fst m2)) ++
@@ -722,3 +746,20 @@ Definition bcase_ok (c : bcase) : bool :=
    | Some (sl, kwd), Some (sl', kwd') => list_eqb bval_eqb sl sl' && kwb_set_eqb kwd kwd'
    | _, _ => false
    end).
+
+(* ---- correspondence on REAL standard-library definitions (rows of Gen/Registry.v) ------------ *)
+Record scase := {
+  s_layers : list (list nat * bool);   (* per context layer, nearest first: registry indices of the overloads, exclusive mark *)
+  s_recv : bool; s_args : list arg; s_kwargs : kwargs;
+  s_chosen : option Z;                 (* Some fid: that definition ran;  None: resolution failed with s_err *)
+  s_err : err; s_log : list Z }.
+
+Definition scase_ok (sub : tag -> tag -> bool) (defs : list fdef) (c : scase) : bool :=
+  let chain := map (fun l => {| lfuns := flat_map (fun i => match nth_error defs i with Some f => [f] | None => [] end) (fst l);
+                                lexcl := snd l |}) (s_layers c) in
+  let '(o, l) := call sub (s_recv c) chain (s_args c) (s_kwargs c) in
+  (match o, s_chosen c with
+   | Chosen f _ _, Some g => Z.eqb f g
+   | Failed e, None => err_eqb e (s_err c)
+   | _, _ => false
+   end) && list_eqb Z.eqb l (s_log c).
